@@ -57,10 +57,13 @@ l2!(c01_truncate_step, 6, {
     let (start, len, reserved) = vr::geom(&r);
     let st0 = vm::state_of(&*r.meta());
     let from: usize = kani::any();
+    classify_locks(&wd);
     ghost::clear();
+    ghost::enable_lock_tap(true);
     let w = any_addr();
     let before = classify(layout_of(&wd.db), w);
     let res = r.truncate(from);
+    assert!(lock_order_ok(), "lock order / re-acquisition violation in Region::truncate");
     let after = classify(layout_of(&wd.db), w);
     let (ns, nl, nr) = vr::geom(&r);
     assert!(after == before);
@@ -104,8 +107,11 @@ l2!(c01_rename_step, 6, {
     let which: u8 = kani::any();
     kani::assume(which <= 2);
     let new_id = match which { 0 => "b", 1 => "a", _ => "z" };
+    classify_locks(&wd);
     ghost::clear();
+    ghost::enable_lock_tap(true);
     let res = r.rename(new_id);
+    assert!(lock_order_ok(), "lock order / re-acquisition violation in Region::rename");
     let rs = regions_of(&wd.db);
     assert!(vr::geom(&r) == geom0);
     others_untouched(&wd, 0);
